@@ -38,6 +38,7 @@ type n10Step struct {
 	Op     *n09Op `json:"op,omitempty"`     // lock / unlock
 	State  string `json:"state,omitempty"`  // follower | sync | vote | config: force the follower's role
 	Direct bool   `json:"direct,omitempty"` // in-process followerDB.Lock/UnLock instead of TCP
+	KV     []string `json:"kv,omitempty"`   // text protocol only: a key-value command as typed (SET k v / GET k / DEL k)
 	Wait   bool   `json:"wait,omitempty"`   // Op is a LOCK (flag 0x08, Timeout > 0) on the key n10WaitKey, which its preloaded holder keeps over the request's Count: the leader queues it; the holder is released through the leader once no early answer came
 }
 
@@ -59,6 +60,7 @@ func (c *n10Case) fingerprint() uint64 {
 		if s.Op != nil {
 			sb.WriteString(s.Op.String())
 		}
+		sb.WriteString(strings.Join(s.KV, " "))
 		fmt.Fprintf(&sb, "%s/%v;", s.State, s.Direct)
 	}
 	return vHash(c.Text, c.Stall, sb.String())
@@ -274,12 +276,25 @@ func (x *n10Conn) doText(op *n09Op) n10Reply {
 	key := n09Key(op.Key)
 	id := n09LockId(op.Id)
 	var args []string
-	if op.K == "lock" {
-		args = []string{"LOCK", hex.EncodeToString(key[:]), "TIMEOUT", "0", "EXPRIED", strconv.Itoa(op.E | op.EF<<16), "LOCK_ID", hex.EncodeToString(id[:]),
+	if op.K == "lock" || op.K == "push" {
+		args = []string{strings.ToUpper(op.K), hex.EncodeToString(key[:]), "TIMEOUT", "0", "EXPRIED", strconv.Itoa(op.E | op.EF<<16), "LOCK_ID", hex.EncodeToString(id[:]),
 			"FLAG", strconv.Itoa(op.Flag), "COUNT", strconv.Itoa(op.Cnt), "RCOUNT", strconv.Itoa(op.Rc)}
 	} else {
 		args = []string{"UNLOCK", hex.EncodeToString(key[:]), "LOCK_ID", hex.EncodeToString(id[:]), "FLAG", strconv.Itoa(op.Flag), "RCOUNT", strconv.Itoa(op.Rc)}
 	}
+	if _, err := x.c.Write(n10Resp(args...)); err != nil {
+		return n10Reply{None: true}
+	}
+	s, err := x.readResp(0)
+	if err != nil && s == "" {
+		return n10Reply{None: true}
+	}
+	return n10Reply{Raw: s}
+}
+
+func (x *n10Conn) doRaw(args []string) n10Reply {
+	x.seq++
+	_ = x.c.SetDeadline(time.Now().Add(4 * time.Second))
 	if _, err := x.c.Write(n10Resp(args...)); err != nil {
 		return n10Reply{None: true}
 	}
@@ -297,6 +312,7 @@ const n10KeyProbable = "C10:concurrent-check-answered-locally-by-non-leader"
 const n10KeyUnlockUnknown = "C10:non-leader-unlock-of-unknown-key-answers-UNLOCK_ERROR"
 
 type n10Info struct {
+	pushes, kvs int
 	waits, waitsDecidedByLeader int
 	excludedUnknownUnlock int
 	forwarded, refused, direct, noReply int
@@ -453,8 +469,29 @@ func n10RunCase(c *n10Case) (out n10Out) {
 				fail("C10:non-leader-decides", "step %d: direct %s on a node in role %s answered %s instead of STATE_ERROR", i, st.Op.K, state, aResultName(directReply.Result))
 				return
 			}
+		case st.KV != nil && c.Text:
+			rp := conn.doRaw(st.KV)
+			replies[i] = &rp
+			log = append(log, fmt.Sprintf("#%d tcp(%s) %s -> %v", i, state, strings.Join(st.KV, " "), rp))
+			switch {
+			case rp.None:
+				out.info.noReply++
+				conn.close()
+				if conn, err = n10Dial(fol.addr, c.Text); err != nil {
+					out.info.inconclusive = "cannot reconnect to the follower: " + err.Error()
+					return
+				}
+			case rp.stateError():
+				out.info.refused++
+			default:
+				out.info.forwarded++
+				out.info.kvs++
+			}
 		case st.Op != nil:
 			var rp n10Reply
+			if st.Op.K == "push" {
+				out.info.pushes++
+			}
 			if st.Wait && !c.Text {
 				rp = conn.doWait(st.Op, func() {
 					log = append(log, fmt.Sprintf("#%d   (no answer within %v: holder released through the leader)", i, n10EarlyWindow))
@@ -537,7 +574,30 @@ func n10RunCase(c *n10Case) (out n10Out) {
 	defer lconn.close()
 	var llog []string
 	for i, st := range c.Steps {
-		if st.Op == nil || st.Direct || replies[i] == nil || replies[i].None || replies[i].stateError() {
+		if (st.Op == nil && st.KV == nil) || st.Direct || replies[i] == nil || replies[i].None || replies[i].stateError() {
+			continue
+		}
+		if st.KV != nil {
+			lr := lconn.doRaw(st.KV)
+			llog = append(llog, fmt.Sprintf("#%d %s -> %v", i, strings.Join(st.KV, " "), lr))
+			if fr := *replies[i]; lr.Raw != fr.Raw || lr.None != fr.None {
+				fail("C10:reply-through-follower-differs", "step %d %s: reply relayed by the follower differs from the leader's own reply\n    via follower: %v\n    from leader : %v\n  same requests sent to a leader directly:\n    %s", i, strings.Join(st.KV, " "), fr, lr, strings.Join(llog, "\n    "))
+				return
+			}
+			continue
+		}
+		if st.Op.K == "push" {
+			// the leader's own text protocol has a listed finding for PUSH (C03: its result answers the next command), so the
+			// leader path takes the PUSH through the in-memory client; what is compared is the follower's immediate "+OK" and,
+			// above all, the replies of everything that follows on the same connection
+			lop := *st.Op
+			lop.K = "lock"
+			e2.send(lop)
+			llog = append(llog, fmt.Sprintf("#%d %v (in-memory client)", i, *st.Op))
+			if fr := *replies[i]; fr.Raw != "+OK\r\n" {
+				fail("C10:reply-through-follower-differs", "step %d %v: a forwarded PUSH is acknowledged with +OK at once, the follower answered %v", i, *st.Op, fr)
+				return
+			}
 			continue
 		}
 		var lr n10Reply
@@ -567,14 +627,29 @@ func n10RunCase(c *n10Case) (out n10Out) {
 // ---------------------------------------------------------------------------------------------
 // generator
 
+func n10GenKV(t *rapid.T) []string {
+	k := rapid.SampledFrom([]string{"kv0", "kv1"}).Draw(t, "kvkey")
+	switch rapid.SampledFrom([]string{"SET", "SET", "GET", "GET", "DEL"}).Draw(t, "kvcmd") {
+	case "SET":
+		return []string{"SET", k, rapid.StringMatching(`[a-z0-9]{1,12}`).Draw(t, "kvval")}
+	case "GET":
+		return []string{"GET", k}
+	}
+	return []string{"DEL", k}
+}
+
 func n10GenOp(t *rapid.T, text bool, keys int) *n09Op {
-	op := &n09Op{K: rapid.SampledFrom([]string{"lock", "lock", "lock", "unlock", "unlock"}).Draw(t, "kind")}
+	kinds := []string{"lock", "lock", "lock", "unlock", "unlock"}
+	if text {
+		kinds = []string{"lock", "lock", "lock", "unlock", "unlock", "push", "push"}
+	}
+	op := &n09Op{K: rapid.SampledFrom(kinds).Draw(t, "kind")}
 	if !text {
 		op.Db = rapid.SampledFrom([]int{0, 0, 0, 1}).Draw(t, "db")
 	}
 	op.Key = rapid.IntRange(0, keys-1).Draw(t, "key")
 	op.Id = rapid.IntRange(0, 2).Draw(t, "id")
-	if op.K == "lock" {
+	if op.K == "lock" || op.K == "push" {
 		op.Flag = rapid.SampledFrom([]int{0, 0, 0, 0x02, 0x01, 0x08}).Draw(t, "flag")
 		op.E = rapid.SampledFrom([]int{60, 60, 120, 600}).Draw(t, "e")
 		op.EF = 0x0100
@@ -615,7 +690,11 @@ func n10GenCase(t *rapid.T, st *vStat) *n10Case {
 		case r < 36:
 			c.Steps = append(c.Steps, n10Step{Op: n10GenOp(t, false, keys), Direct: true})
 		default:
-			c.Steps = append(c.Steps, n10Step{Op: n10GenOp(t, c.Text, keys)})
+			if c.Text && rapid.IntRange(0, 4).Draw(t, "kv") == 2 {
+				c.Steps = append(c.Steps, n10Step{KV: n10GenKV(t)})
+			} else {
+				c.Steps = append(c.Steps, n10Step{Op: n10GenOp(t, c.Text, keys)})
+			}
 		}
 	}
 	if !c.Text && rapid.IntRange(0, 2).Draw(t, "withWait") == 0 {
@@ -636,7 +715,7 @@ func n10GenCase(t *rapid.T, st *vStat) *n10Case {
 		// replicated view. Excluded: the flag is not generated for direct calls nor while the stream is stalled
 		// (with a live stream the harness lets the follower catch up, so both views agree).
 		for _, s := range c.Steps {
-			if s.Op != nil && s.Op.K == "lock" && s.Op.Flag&0x08 != 0 && s.Op.T == 0 && (s.Direct || c.Stall) {
+			if s.Op != nil && (s.Op.K == "lock" || s.Op.K == "push") && s.Op.Flag&0x08 != 0 && s.Op.T == 0 && (s.Direct || c.Stall) {
 				s.Op.Flag &^= 0x08
 				st.Exclude("concurrent-check flag dropped from a direct / stalled-stream request (known finding " + n10KeyProbable + ")")
 			}
@@ -736,6 +815,8 @@ func TestC10_Forward(t *testing.T) {
 		add(c.Text, "text protocol")
 		add(!c.Text, "binary protocol")
 		add(out.info.noReply > 0, "request without reply")
+		add(out.info.pushes > 0, "text PUSH through the follower")
+		add(out.info.kvs > 0, "text key-value command (SET/GET/DEL) through the follower")
 		add(out.info.waits > 0, "waiting concurrent-check request (Timeout > 0) through the follower")
 		add(out.info.waitsDecidedByLeader > 0, "waiting request answered only after the leader released the holder")
 		for i := 0; i < out.info.excludedUnknownUnlock; i++ {
